@@ -659,5 +659,70 @@ func TestVerifC16(t *testing.T) {
 			}
 		}
 	}
+	// 7. crafted: two sequences, all elements distinct, long enough to exhaust the route table once; one extra
+	// pair of equal elements placed so that the delete+add -> replace merge pairs them across the boundary of
+	// the two search rounds (old[1] with the second element of new that the second round adds).
+	if big > 0 {
+		m, n := 1500, 1700
+		mk := func(zj int) (starlark.Value, starlark.Value) {
+			x := make([]starlark.Value, m)
+			y := make([]starlark.Value, n)
+			for i := range x {
+				x[i] = c16int(i)
+			}
+			for j := range y {
+				y[j] = c16int(100000 + j)
+			}
+			if zj >= 0 {
+				x[1] = starlark.String("Z")
+				y[zj] = starlark.String("Z")
+			}
+			return c16tuple(x), c16tuple(y)
+		}
+		func() {
+			defer func() {
+				if x := recover(); x != nil {
+					fmt.Fprintf(g.w, "CRAFTED\tsetup\tpanic %v\n", x)
+				}
+			}()
+			a, b := mk(-1)
+			dd := differ{a: a.(starlark.Sliceable), b: b.(starlark.Sliceable), m: m, n: n, reverse: false,
+				depth: starlark.CompareLimit - 1, routeSize: defaultRouteSize}
+			dd.compose()
+			if dd.ox == 0 && dd.oy == 0 {
+				fmt.Fprintf(g.w, "CRAFTED\tsetup\tno route-table exhaustion at %dx%d\n", m, n)
+				return
+			}
+			// first round: adds new[0:cut), deletes old[0:..); the second round starts adding at new[cut]
+			cut := dd.edits[0].values.Len()
+			if dd.edits[0].kind != editKindAdd || cut+1 >= n {
+				fmt.Fprintf(g.w, "CRAFTED\tsetup\tunexpected first-round shape\n")
+				return
+			}
+			a, b = mk(cut + 1)
+			d, err, p := c16run(a, b)
+			desc := fmt.Sprintf("old = (0..%d) with old[1]=\"Z\"; new = (100000..%d) with new[%d]=\"Z\"", m-1, 100000+n-1, cut+1)
+			switch {
+			case p != "":
+				fmt.Fprintf(g.w, "CRAFTED\t%s\tpanic %s\n", desc, p)
+			case err != nil:
+				fmt.Fprintf(g.w, "CRAFTED\t%s\terror %v\n", desc, err)
+			default:
+				fails := c16oracle(d, a, b)
+				shape := ""
+				if sd, ok := d.(*SliceableDiff); ok {
+					for _, ev := range sd.Edits() {
+						e := ev.(*Edit)
+						shape += fmt.Sprintf("%s(%d) ", string(e.Kind()), e.Len())
+					}
+				}
+				if len(fails) == 0 {
+					fmt.Fprintf(g.w, "CRAFTED\t%s\tok\t%s\n", desc, shape)
+				} else {
+					fmt.Fprintf(g.w, "CRAFTED\t%s\tfail %s\t%s\n", desc, strings.Join(fails, ","), shape)
+				}
+			}
+		}()
+	}
 	t.Logf("C16: %d cases, %d oracle failures", g.cases, g.oracles)
 }
